@@ -18,6 +18,7 @@
        C02_complete_swaps_spec  the swap-completion loop denotes the permutation that sends
                                 each herald output mode to its input mode and is order
                                 preserving on the other modes
+       C02_visible_modes_are_user_modes  the j-th visible parent mode from m on = _map_mode(mode + j)
        C02_add_wiring           U_R = E . iota(U_P) with explicit index maps old, loc,
                                 phi_in, phi_out (clauses (1)-(3) of the Spec); its conclusion
                                 re-establishes its hypotheses on the result, so it applies at
@@ -25,9 +26,37 @@
      with a non-vacuity example over the rationals (parent ancilla inside the span,
      herald entering on mode 0 and leaving on mode 2, losses in both circuits) on which
      the conclusion is also recomputed entry by entry from a hand-written wiring.
-   Not proved in Coq: the Fock-space amplitude composition (T2 add_amplitudes); it is
-   covered by the independent amplitude oracle of harness/c02.py.  The tie of the model
-   of Circuit.add to the implementation is the correspondence run of this check. *)
+   * the FOCK-SPACE AMPLITUDE COMPOSITION (T2 add_amplitudes of DESIGN "### C02"), second half
+     of this file, over the complex pairs of any commutative *-ring with canonical integers in
+     which the positive integers are invertible (instantiated at the reals at the end):
+       C02_amp_transport        a matrix carried along an injection of modes (identity elsewhere):
+                                its amplitude between two Fock states = the original amplitude
+                                between the states read along the injection, times the Kronecker
+                                delta of the occupations outside the image, times the product of
+                                their factorials (photons outside the image pass straight through)
+       C02_amp_transport_conserved / C02_amp_factor_transport / C02_amp_transport_normalised
+                                mode-by-mode conservation off the image; the normalisation
+                                prod in! * prod out! splits accordingly, so the normalised
+                                amplitudes (permanent / sqrt factor) coincide
+       C02_wiring_amplitudes    amplitudes of E . iP = sum over the intermediate Fock states of the
+                                two transported transformations' own amplitudes / prod t!
+       C02_add_amplitudes       with the hypotheses and the witnesses of C02_add_wiring: for all
+                                full input/output Fock states x, y of the result (heralds inserted,
+                                loss modes included) amp(U_R; x -> y) = sum over t of
+                                amp(U_S; t|phi_in -> y|phi_out) amp(U_P; x|old -> t|old) / prod t!
+                                with the pass-through factors written out; the parent's ancillas
+                                carry their photons through the added circuit untouched; heralded
+                                form: if x and y hold the herald photon numbers of the result, the
+                                sub-circuit's heralds hold at its own input and output and the
+                                parent's at its own input and ancilla outputs, in every
+                                non-vanishing term
+       C02_add_result_reusable  the result again satisfies every hypothesis on a parent and on a
+                                sub-circuit and compiles: the two theorems apply along any tree
+                                of additions (any nesting depth)
+     with a non-vacuity example over the rationals (herald photons on both ancillas) on which
+     both sides are computed.
+   The tie of the model of Circuit.add to the implementation is the correspondence run of
+   this check; harness/c02.py also carries an independent amplitude oracle. *)
 From Coq Require Import ZArith List Bool Arith Lia.
 From LW Require Import Base.Sx Base.Num Base.Mat Model.Circuit Proofs.CircuitP Proofs.AddP.
 From LW Require Import Base.QI2 Model.Display Proofs.CompileP Proofs.DisplayP
@@ -233,6 +262,16 @@ Theorem C02_add_wiring :
 Proof. exact (fun K o SRK => @add_wiring K o SRK). Qed.
 Print Assumptions C02_add_wiring.
 
+(* the visible modes used in C02_add_wiring are the user modes mode, mode+1, ... of the
+   parent: the j-th non-ancilla mode from m on is where _map_mode sends user mode mode + j *)
+Theorem C02_visible_modes_are_user_modes :
+  forall (K : Type) (c : circ (K:=K)) (mode : Z) (m : nat),
+    NoDup (c_int c) -> mode_ok c (map_mode (c_int c) mode) = Ok m ->
+    forall j, j < length (visible_from (c_n c) (c_int c) m) ->
+      nth j (visible_from (c_n c) (c_int c) m) 0 = Z.to_nat (map_mode (c_int c) (mode + Z.of_nat j)).
+Proof. exact (fun K => @visible_from_map_mode K). Qed.
+Print Assumptions C02_visible_modes_are_user_modes.
+
 (* every circuit whose swap dictionaries pass the validators of C01 satisfies [swnd] *)
 Theorem C02_swnd_from_validated :
   forall (K : Type) (o : ops K) (SRK : StarRing o) (e : env (K:=K)) (N : nat) (c : comp (K:=K)),
@@ -321,3 +360,304 @@ Example C02_add_wiring_computed :
            (mmul (co qcops) 9 (ex_transport phi_out phi_in US) (ex_transport old old UP) i j))
     (seq 0 9)) (seq 0 9) = true.
 Proof. vm_compute. split; reflexivity. Qed.
+
+(* ====================================================================== *)
+(* Fock-space amplitudes of the result (DESIGN "### C02", T2 add_amplitudes) *)
+(* ====================================================================== *)
+From LW Require Import Base.Sums Model.State Model.Fock Proofs.PermP Proofs.FockUnitP
+     Proofs.WiringAmpFock Proofs.WiringAmpP.
+Local Open Scope nat_scope.
+
+(* Notation of this part.  [amp_perm r U ins outs] (Model/Fock.v, the value the permanent back
+   end computes) is the permanent of U with row i repeated outs_i times and column j repeated
+   ins_j times; the transition amplitude is  amp_perm / sqrt (amp_factor ins outs),
+   amp_factor ins outs = prod ins! * prod outs!  ([fact_prod]).
+   [restr f n s]      = the occupations of the modes f 0, ..., f (n-1) of the state s;
+   [offocc f n N s]   = the occupations of the modes of [0,N) that are not among them, ascending;
+   [pass_factor r f n N s t] = prod (offocc f n N s)!  if offocc f n N s = offocc f n N t, else 0;
+   [fock_enum L N k]  : L lists every N-mode state with k photons exactly once ([focks N k] does);
+   [ZMorph o]         : kofZ o is the canonical map of the integers;  [ninv k] = 1/k. *)
+
+(* T-A.  M' carries the n x n matrix M on the rows fo[0,n) and columns fi[0,n) of the
+   N-dimensional identity (fi, fo injective with the same image).  For N-mode states s (input)
+   and t (output): photons outside the image keep their mode, the others see M. *)
+Theorem C02_amp_transport :
+  forall (K : Type) (r : ops K) (SR : StarRing r) (ZM : ZMorph r)
+         (n N : nat) (fi fo : nat -> nat) (M M' : mat (K:=K)) (s t : list nat),
+    (forall i, i < n -> fi i < N /\ fo i < N) ->
+    (forall i j, i < n -> j < n -> (fi i = fi j -> i = j) /\ (fo i = fo j -> i = j)) ->
+    (forall x, (forall i, i < n -> fi i <> x) <-> (forall i, i < n -> fo i <> x)) ->
+    (forall i j, i < n -> j < n -> M' (fo i) (fi j) = M i j) ->
+    (forall x y, x < N -> y < N -> (forall i, i < n -> fi i <> x) ->
+                 M' x y = mid r x y /\ M' y x = mid r y x) ->
+    length s = N -> length t = N ->
+    amp_perm r M' s t =
+    kmul r (if nlist_eqb (offocc fi n N s) (offocc fi n N t)
+            then kofnat r (fact_prod (offocc fi n N s)) else k0 r)
+           (amp_perm r M (restr fi n s) (restr fo n t)).
+Proof. exact (fun K r SR ZM => @amp_transport K r SR ZM). Qed.
+Print Assumptions C02_amp_transport.
+
+(* a non-vanishing amplitude of M' conserves the occupation of every mode outside the image *)
+Theorem C02_amp_transport_conserved :
+  forall (K : Type) (r : ops K) (SR : StarRing r) (ZM : ZMorph r)
+         (n N : nat) (fi fo : nat -> nat) (M M' : mat (K:=K)) (s t : list nat),
+    (forall i, i < n -> fi i < N /\ fo i < N) ->
+    (forall i j, i < n -> j < n -> (fi i = fi j -> i = j) /\ (fo i = fo j -> i = j)) ->
+    (forall x, (forall i, i < n -> fi i <> x) <-> (forall i, i < n -> fo i <> x)) ->
+    (forall i j, i < n -> j < n -> M' (fo i) (fi j) = M i j) ->
+    (forall x y, x < N -> y < N -> (forall i, i < n -> fi i <> x) ->
+                 M' x y = mid r x y /\ M' y x = mid r y x) ->
+    length s = N -> length t = N ->
+    amp_perm r M' s t <> k0 r ->
+    forall x, x < N -> (forall i, i < n -> fi i <> x) -> nth x s 0 = nth x t 0.
+Proof. exact (fun K r SR ZM => @amp_transport_conserved K r SR ZM). Qed.
+Print Assumptions C02_amp_transport_conserved.
+
+(* normalisation: the factor prod in! * prod out! splits into the factor of the restricted
+   states and the factorials of the occupations outside the image (input and output) ... *)
+Theorem C02_amp_factor_transport :
+  forall (n N : nat) (fi fo : nat -> nat) (s t : list nat),
+    (forall i, i < n -> fi i < N /\ fo i < N) ->
+    (forall i j, i < n -> j < n -> (fi i = fi j -> i = j) /\ (fo i = fo j -> i = j)) ->
+    (forall x, (forall i, i < n -> fi i <> x) <-> (forall i, i < n -> fo i <> x)) ->
+    length s = N -> length t = N ->
+    amp_factor s t =
+    amp_factor (restr fi n s) (restr fo n t) * (fact_prod (offocc fi n N s) * fact_prod (offocc fi n N t)).
+Proof. exact amp_factor_transport. Qed.
+Print Assumptions C02_amp_factor_transport.
+
+(* ... so that amplitude^2 / factor (hence, the pass-through factor being a positive integer,
+   the normalised amplitude itself) is the same for the transported and the original matrix *)
+Theorem C02_amp_transport_normalised :
+  forall (K : Type) (r : ops K) (SR : StarRing r) (ZM : ZMorph r)
+         (n N : nat) (fi fo : nat -> nat) (M M' : mat (K:=K)) (s t : list nat),
+    (forall i, i < n -> fi i < N /\ fo i < N) ->
+    (forall i j, i < n -> j < n -> (fi i = fi j -> i = j) /\ (fo i = fo j -> i = j)) ->
+    (forall x, (forall i, i < n -> fi i <> x) <-> (forall i, i < n -> fo i <> x)) ->
+    (forall i j, i < n -> j < n -> M' (fo i) (fi j) = M i j) ->
+    (forall x y, x < N -> y < N -> (forall i, i < n -> fi i <> x) ->
+                 M' x y = mid r x y /\ M' y x = mid r y x) ->
+    length s = N -> length t = N ->
+    offocc fi n N s = offocc fi n N t ->
+    kmul r (kofnat r (amp_factor (restr fi n s) (restr fo n t))) (kmul r (amp_perm r M' s t) (amp_perm r M' s t)) =
+    kmul r (kofnat r (amp_factor s t))
+           (kmul r (amp_perm r M (restr fi n s) (restr fo n t)) (amp_perm r M (restr fi n s) (restr fo n t))).
+Proof. exact (fun K r SR ZM => @amp_transport_normalised K r SR ZM). Qed.
+Print Assumptions C02_amp_transport_normalised.
+
+(* T-B, algebraic core.  UP (dimension nP) is carried along old into iP, US (dimension nS) along
+   phi_in (columns) / phi_out (rows) into E, inside dimension D, and UR = E . iP on [0,D).
+   Then for all D-mode Fock states x (input), y (output), and any exact enumeration L of the
+   D-mode states with |x| photons:
+   (a) amp(UR; x -> y) = sum_t amp(E; t -> y) amp(iP; x -> t) / prod t!,
+   (b) each factor is the own amplitude of UP resp. US between the restricted states, times the
+       pass-through factor of the other modes,   (c) the two combined. *)
+Theorem C02_wiring_amplitudes :
+  forall (K : Type) (r : ops K) (SR : StarRing r) (ZM : ZMorph r) (ninv : nat -> K),
+    (forall k, 0 < k -> kmul r (kofnat r k) (ninv k) = k1 r) ->
+    forall (nP nS D : nat) (old phi_in phi_out : nat -> nat) (UP US UR E iP : mat (K:=K)),
+    (forall i, i < nP -> old i < D) ->
+    (forall i j, i < nP -> j < nP -> old i = old j -> i = j) ->
+    (forall i j, i < nP -> j < nP -> iP (old i) (old j) = UP i j) ->
+    (forall x y, x < D -> y < D -> (forall i, i < nP -> old i <> x) ->
+                 iP x y = mid r x y /\ iP y x = mid r y x) ->
+    (forall i, i < nS -> phi_in i < D /\ phi_out i < D) ->
+    (forall i j, i < nS -> j < nS -> (phi_in i = phi_in j -> i = j) /\ (phi_out i = phi_out j -> i = j)) ->
+    (forall x, (forall i, i < nS -> phi_in i <> x) <-> (forall i, i < nS -> phi_out i <> x)) ->
+    (forall i j, i < nS -> j < nS -> E (phi_out i) (phi_in j) = US i j) ->
+    (forall x y, x < D -> y < D -> (forall i, i < nS -> phi_in i <> x) ->
+                 E x y = mid r x y /\ E y x = mid r y x) ->
+    meq D UR (mmul r D E iP) ->
+    forall (x y : list nat) (L : list (list nat)),
+      length x = D -> length y = D -> fock_enum L D (osum x) ->
+      amp_perm r UR x y =
+        suml r L (fun t => kmul r (kmul r (amp_perm r E t y) (amp_perm r iP x t)) (ninv (fact_prod t))) /\
+      (forall t, length t = D ->
+         amp_perm r iP x t =
+           kmul r (pass_factor r old nP D x t) (amp_perm r UP (restr old nP x) (restr old nP t)) /\
+         amp_perm r E t y =
+           kmul r (pass_factor r phi_in nS D t y) (amp_perm r US (restr phi_in nS t) (restr phi_out nS y))) /\
+      amp_perm r UR x y =
+        suml r L (fun t =>
+          kmul r (kmul r
+            (kmul r (pass_factor r phi_in nS D t y) (amp_perm r US (restr phi_in nS t) (restr phi_out nS y)))
+            (kmul r (pass_factor r old nP D x t) (amp_perm r UP (restr old nP x) (restr old nP t))))
+            (ninv (fact_prod t))).
+Proof. exact (fun K r SR ZM => @wiring_amplitudes K r SR ZM). Qed.
+Print Assumptions C02_wiring_amplitudes.
+
+(* T-B / T-C for Circuit.add.  Hypotheses and witnesses of C02_add_wiring (its conclusion is
+   repeated as the first conjunct, so that the amplitude clauses speak about the same old, loc,
+   phi_in, phi_out, E, iP).  D = nR + lP + lS is the dimension of the compiled result; x and y are
+   FULL states of the result: the heralded ancillas carry their photons, loss modes included.
+   T-B (for all x, y, and any exact enumeration L of the D-mode states with |x| photons):
+   (a) amp(U_R; x -> y) = sum_t amp(E; t -> y) amp(iP; x -> t) / prod t!;
+   (b) amp(iP; x -> t) = [x = t off im old] prod (x off im old)! amp(U_P; x|old -> t|old): the
+       parent's own amplitude; amp(E; t -> y) = [t = y off W] prod (t off W)! amp(U_S; t|phi_in ->
+       y|phi_out): the sub-circuit's own amplitude, its j-th open input/output wired to the j-th
+       visible parent mode from m on and its k-th herald to the new ancilla loc k;
+   (c) the two combined: the result's amplitudes are those of the two transformations composed
+       under this wiring;
+   (d) every ancilla old(i), i in c_int c, of the parent keeps its photons through E;
+   (e) every new ancilla loc k keeps its photons through iP.
+   T-C (heralded form): if x holds the input herald numbers of the result and y its output herald
+   numbers, then the parent's input heralds hold on x|old, the k-th herald of sub leaves sub on its
+   declared output mode with its declared photon number (so all of sub's output heralds hold on
+   y|phi_out when its two herald dictionaries list the same numbers, as every herald()/add() call
+   produces), and in every non-vanishing term t of the sum the heralds of sub hold at its own input
+   t|phi_in and the parent's ancillas hold their output herald numbers on t|old. *)
+Theorem C02_add_amplitudes :
+  forall (K : Type) (o : ops K) (SRK : StarRing o) (ZMK : ZMorph o) (ninv : nat -> K * K),
+    (forall k, 0 < k -> kmul (co o) (kofnat (co o) k) (ninv k) = k1 (co o)) ->
+    forall (e : env (K:=K)) (c sub c' : circ (K:=K)) (mode : Z) (g : bool)
+           (lP : nat) (UP : mat (K:=K*K)) (lS : nat) (US : mat (K:=K*K)),
+    WFH c -> WFH sub -> 1 <= c_n sub ->
+    Forall swnd (c_spec c) -> Forall swnd (c_spec sub) ->
+    length (c_in sub) = length (c_out sub) ->
+    op_add o c sub mode g = Ok c' ->
+    build o e c = Ok (c_n c + lP, UP) -> build o e sub = Ok (c_n sub + lS, US) ->
+    let nP := c_n c in let nS := c_n sub in let h := length (c_in sub) in let nR := nP + h in
+    let ins := dkeys (c_in sub) in let outs := dkeys (c_out sub) in
+    let D := nR + lP + lS in
+    exists (m : nat) (old loc phi_in phi_out : nat -> nat) (UR E iP : mat (K:=K*K)),
+      (* ---- the wiring (conclusion of C02_add_wiring, verbatim) ---- *)
+      (mode_ok c (map_mode (c_int c) mode) = Ok m /\ m < nP /\ ~ In m (c_int c) /\
+       c_n c' = nR /\ build o e c' = Ok (nR + lP + lS, UR) /\
+       (forall a b, a < b -> old a < old b) /\ (forall i, i < nP -> old i < nR) /\
+       (forall l, old (nP + l) = nR + l) /\ (forall i, i < m -> old i = i) /\
+       (forall k, k < h -> loc k < nR /\ forall i, old i <> loc k) /\
+       (forall k k', k < h -> k' < h -> loc k = loc k' -> k = k') /\
+       Permutation (c_int c') (map old (c_int c) ++ map loc (seq 0 h)) /\
+       c_in c' = map (fun kv => (old (fst kv), snd kv)) (c_in c) ++ map (fun kv => (phi_in (fst kv), snd kv)) (c_in sub) /\
+       c_out c' = map (fun kv => (old (fst kv), snd kv)) (c_out c) ++ map (fun kv => (phi_in (fst kv), snd kv)) (c_in sub) /\
+       (forall k, k < h -> phi_in (nth k ins 0) = loc k /\ phi_out (nth k outs 0) = loc k) /\
+       nS - h <= length (visible_from nP (c_int c) m) /\
+       (forall j, j < nS - h ->
+          phi_in (nth j (open_modes_of nS ins) 0) = old (nth j (visible_from nP (c_int c) m) 0) /\
+          phi_out (nth j (open_modes_of nS outs) 0) = old (nth j (visible_from nP (c_int c) m) 0)) /\
+       (forall l, phi_in (nS + l) = nR + lP + l /\ phi_out (nS + l) = nR + lP + l) /\
+       (forall i, i < nS + lS -> phi_in i < nR + lP + lS /\ phi_out i < nR + lP + lS) /\
+       (forall i j, i < nS + lS -> j < nS + lS -> (phi_in i = phi_in j -> i = j) /\ (phi_out i = phi_out j -> i = j)) /\
+       (forall i j, i < nS + lS -> j < nS + lS -> E (phi_out i) (phi_in j) = US i j) /\
+       (forall x y, x < nR + lP + lS -> y < nR + lP + lS -> (forall i, i < nS + lS -> phi_in i <> x) ->
+                    E x y = mid (co o) x y /\ E y x = mid (co o) y x) /\
+       (forall x, (forall i, i < nS + lS -> phi_in i <> x) <-> (forall i, i < nS + lS -> phi_out i <> x)) /\
+       (forall i, In i (c_int c) -> forall i', i' < nS + lS -> phi_in i' <> old i) /\
+       (forall i j, i < nP + lP -> j < nP + lP -> iP (old i) (old j) = UP i j) /\
+       (forall x y, x < nR + lP + lS -> y < nR + lP + lS -> (forall i, i < nP + lP -> old i <> x) ->
+                    iP x y = mid (co o) x y /\ iP y x = mid (co o) y x) /\
+       meq (nR + lP + lS) UR (mmul (co o) (nR + lP + lS) E iP) /\
+       WFH c' /\ Forall swnd (c_spec c')) /\
+      (* ---- T-B: amplitudes, for all full input states x and output states y of the result ---- *)
+      (forall (x y : list nat) (L : list (list nat)),
+         length x = D -> length y = D -> fock_enum L D (osum x) ->
+         amp_perm (co o) UR x y =
+           suml (co o) L (fun t => kmul (co o) (kmul (co o) (amp_perm (co o) E t y) (amp_perm (co o) iP x t))
+                                               (ninv (fact_prod t))) /\
+         (forall t, length t = D ->
+            amp_perm (co o) iP x t =
+              kmul (co o) (pass_factor (co o) old (nP + lP) D x t)
+                          (amp_perm (co o) UP (restr old (nP + lP) x) (restr old (nP + lP) t)) /\
+            amp_perm (co o) E t y =
+              kmul (co o) (pass_factor (co o) phi_in (nS + lS) D t y)
+                          (amp_perm (co o) US (restr phi_in (nS + lS) t) (restr phi_out (nS + lS) y))) /\
+         amp_perm (co o) UR x y =
+           suml (co o) L (fun t =>
+             kmul (co o) (kmul (co o)
+               (kmul (co o) (pass_factor (co o) phi_in (nS + lS) D t y)
+                            (amp_perm (co o) US (restr phi_in (nS + lS) t) (restr phi_out (nS + lS) y)))
+               (kmul (co o) (pass_factor (co o) old (nP + lP) D x t)
+                            (amp_perm (co o) UP (restr old (nP + lP) x) (restr old (nP + lP) t))))
+               (ninv (fact_prod t))) /\
+         (forall t, length t = D -> amp_perm (co o) E t y <> k0 (co o) ->
+            forall i, In i (c_int c) -> nth (old i) t 0 = nth (old i) y 0) /\
+         (forall t, length t = D -> amp_perm (co o) iP x t <> k0 (co o) ->
+            forall k, k < h -> nth (loc k) x 0 = nth (loc k) t 0)) /\
+      (* ---- T-C: heralded form ---- *)
+      (forall (x y : list nat),
+         length x = D -> length y = D ->
+         (forall kv, In kv (c_in c') -> nth (fst kv) x 0 = snd kv) ->
+         (forall kv, In kv (c_out c') -> nth (fst kv) y 0 = snd kv) ->
+         (forall kv, In kv (c_in c) -> nth (fst kv) (restr old (nP + lP) x) 0 = snd kv) /\
+         (forall k, k < h ->
+            nth (nth k outs 0) (restr phi_out (nS + lS) y) 0 = snd (nth k (c_in sub) (0, 0))) /\
+         (dvals (c_out sub) = dvals (c_in sub) ->
+            forall kv, In kv (c_out sub) -> nth (fst kv) (restr phi_out (nS + lS) y) 0 = snd kv) /\
+         (forall t, length t = D -> amp_perm (co o) E t y <> k0 (co o) -> amp_perm (co o) iP x t <> k0 (co o) ->
+            (forall kv, In kv (c_in sub) -> nth (fst kv) (restr phi_in (nS + lS) t) 0 = snd kv) /\
+            (forall kv, In kv (c_out c) -> In (fst kv) (c_int c) ->
+               nth (fst kv) (restr old (nP + lP) t) 0 = snd kv))).
+Proof. exact (fun K o SRK ZMK => @add_amplitudes K o SRK ZMK). Qed.
+Print Assumptions C02_add_amplitudes.
+
+(* Any nesting depth.  The result c' of an accepted add satisfies every hypothesis that
+   C02_add_wiring / C02_add_amplitudes put on a parent (WFH, swnd) and on a sub-circuit (WFH, swnd,
+   at least one mode, herald dictionaries of equal length), and it compiles (with the loss modes
+   of both): both theorems apply again with c' as the parent of a further addition or as the
+   sub-circuit of another parent, and so on along any tree of additions; at each level the
+   amplitudes amp(U_P; ..) / amp(U_S; ..) on the right-hand side of C02_add_amplitudes are
+   themselves given by C02_add_amplitudes for the level below. *)
+Theorem C02_add_result_reusable :
+  forall (K : Type) (o : ops K) (SRK : StarRing o) (e : env (K:=K)) (c sub c' : circ (K:=K)) (mode : Z) (g : bool)
+         (lP : nat) (UP : mat (K:=K*K)) (lS : nat) (US : mat (K:=K*K)),
+    WFH c -> WFH sub -> 1 <= c_n sub ->
+    Forall swnd (c_spec c) -> Forall swnd (c_spec sub) ->
+    length (c_in sub) = length (c_out sub) ->
+    op_add o c sub mode g = Ok c' ->
+    build o e c = Ok (c_n c + lP, UP) -> build o e sub = Ok (c_n sub + lS, US) ->
+    WFH c' /\ Forall swnd (c_spec c') /\ 1 <= c_n c' /\
+    (length (c_in c) = length (c_out c) -> length (c_in c') = length (c_out c')) /\
+    exists UR, build o e c' = Ok (c_n c' + (lP + lS), UR).
+Proof. exact (fun K o SRK => @add_result_reusable K o SRK). Qed.
+Print Assumptions C02_add_result_reusable.
+
+(* the instance at the reals: complex amplitudes, 1/k = cinvn k (FockUnitP); the only axioms
+   are those of the standard library's real numbers *)
+Definition C02_add_amplitudes_real :=
+  C02_add_amplitudes Rdefinitions.R RInst.rops RInst.rstar rops_zmorph cinvn cinvn_spec.
+Print Assumptions C02_add_amplitudes_real.
+
+(* ---- non-vacuity over the rationals ---- *)
+(* the scalar hypotheses of C02_add_amplitudes hold for the rationals (the circuit hypotheses
+   are those of C02_add_wiring_nonvacuous above) *)
+Example C02_add_amplitudes_scalars_nonvacuous :
+  StarRing qcops /\ ZMorph qcops /\
+  (forall k, 0 < k -> kmul (co qcops) (kofnat (co qcops) k) (qcinvn k) = k1 (co qcops)).
+Proof. exact (conj qc_star (conj qc_zmorph qcinvn_spec)). Qed.
+
+(* Both sides of C02_add_amplitudes computed on the instance of C02_add_wiring_computed (result
+   modes [v0, A', v1, A, v2 | 2 loss modes of P | 2 loss modes of S], herald photon numbers
+   A' = 1 and A = 1 at input and output), with the hand-written wiring old / phi_in / phi_out:
+   for each pair (x, y) of full states
+     lhs  = amp(U_R; x -> y)                                   from the compiled result,
+     mid  = sum_t amp(E; t -> y) amp(iP; x -> t) / prod t!     clause (a),
+     rhs  = sum_t [..] amp(U_S; t|phi_in -> y|phi_out) [..] amp(U_P; x|old -> t|old) / prod t!   clause (c)
+   agree; the first amplitude is 972/15625 i, not zero.  Pairs: one photon v0 -> v1; photons on
+   v0 and v1 -> one on v1, one lost in the sub-circuit; two photons on v1 -> v1 and v2. *)
+Definition ex_amp_sides (x y : list nat) : (Qc * Qc) * (Qc * Qc) * (Qc * Qc) :=
+  let cq := co qcops in
+  let UP := ex_mat (build qcops ex_e ex_parent) in
+  let US := ex_mat (build qcops ex_e ex_sub2) in
+  let UR := tab cq 9 (ex_mat (build qcops ex_e ex_c')) in
+  let lold := [0; 2; 3; 4; 5; 6] in let lin := [1; 2; 4; 7; 8] in let lout := [2; 4; 1; 7; 8] in
+  let old := fun i => nth i lold 0 in let phi_in := fun i => nth i lin 0 in let phi_out := fun i => nth i lout 0 in
+  let E := tab cq 9 (ex_transport lout lin US) in
+  let iP := tab cq 9 (ex_transport lold lold UP) in
+  let L := focks 9 (osum x) in
+  (amp_perm cq UR x y,
+   suml cq L (fun t => kmul cq (kmul cq (amp_perm cq E t y) (amp_perm cq iP x t)) (qcinvn (fact_prod t))),
+   suml cq L (fun t => kmul cq (kmul cq
+      (kmul cq (pass_factor cq phi_in 5 9 t y) (amp_perm cq US (restr phi_in 5 t) (restr phi_out 5 y)))
+      (kmul cq (pass_factor cq old 6 9 x t) (amp_perm cq UP (restr old 6 x) (restr old 6 t))))
+      (qcinvn (fact_prod t)))).
+Example C02_add_amplitudes_computed :
+  forallb (fun xy =>
+      let '(l, m, r) := ex_amp_sides (fst xy) (snd xy) in
+      keqb (co qcops) l m && keqb (co qcops) l r)
+    [([1;1;0;1;0;0;0;0;0], [0;1;1;1;0;0;0;0;0]);
+     ([1;1;1;1;0;0;0;0;0], [0;1;1;1;0;0;0;1;0]);
+     ([0;1;2;1;0;0;0;0;0], [0;1;1;1;1;0;0;0;0])] = true /\
+  fst (fst (ex_amp_sides [1;1;0;1;0;0;0;0;0] [0;1;1;1;0;0;0;0;0])) = (Q2Qc 0, Q2Qc (972 # 15625)) /\
+  c_in ex_c' = [(3, 1); (1, 1)] /\ c_out ex_c' = [(3, 1); (1, 1)].
+Proof. vm_compute. repeat split; reflexivity. Qed.
